@@ -34,9 +34,12 @@ type Case struct {
 	JSProj map[string]interface{} `json:"js_proj,omitempty"`
 	Lon    float64                `json:"lon,omitempty"` // the Greenwich position the input was derived from (information only)
 	Lat    float64                `json:"lat,omitempty"`
+	// Pre (round 13): before the judged call the same transformer is called once with a position it cannot convert -
+	// 1: (NaN, y), 2: (x, NaN), 3: (x, 90), 4: (x, -90), 5: (+Inf, y); that call's own result is not judged
+	Pre int `json:"pre,omitempty"`
 }
 
-func goTransform(src, dst string, x, y float64) (float64, float64, error) {
+func goTransform(src, dst string, x, y float64, pre int) (float64, float64, error) {
 	s, err := proj.Parse(src)
 	if err != nil {
 		return 0, 0, fmt.Errorf("Parse(%q): %v", src, err)
@@ -51,6 +54,22 @@ func goTransform(src, dst string, x, y float64) (float64, float64, error) {
 	}
 	if tr == nil {
 		return x, y, nil
+	}
+	if pre != 0 {
+		px, py := x, y
+		switch pre {
+		case 1:
+			px = math.NaN()
+		case 2:
+			py = math.NaN()
+		case 3:
+			py = 90
+		case 4:
+			py = -90
+		default:
+			px = math.Inf(1)
+		}
+		vkit.Catch(func() { tr(px, py) })
 	}
 	ox, oy, err := tr(x, y)
 	if err == nil && (math.IsNaN(ox) || math.IsNaN(oy) || math.IsInf(ox, 0) || math.IsInf(oy, 0)) {
@@ -156,7 +175,7 @@ func gen(t *rapid.T) Case {
 				via = c.Src.GeographicOnSameDatum()
 				via.PM = ""
 			}
-			x, y, err := goTransform(via.String(), c.Src.String(), c.Lon, c.Lat)
+			x, y, err := goTransform(via.String(), c.Src.String(), c.Lon, c.Lat, 0)
 			if err != nil {
 				x, y = c.Src.X0, c.Src.Y0
 			}
@@ -182,6 +201,9 @@ func gen(t *rapid.T) Case {
 			c.Lat = math.Copysign(70, c.Lat)
 		}
 		c.X, c.Y = c.Lon-c.Src.PMDegrees(), c.Lat
+	}
+	if rapid.IntRange(0, 3).Draw(t, "prefirst") == 0 {
+		c.Pre = rapid.IntRange(1, 5).Draw(t, "pre")
 	}
 	return c
 }
@@ -223,6 +245,9 @@ func sameReference(a, b projkit.Def) bool {
 
 func run(c Case) (v vkit.Verdict) {
 	v.Class(c.Kind)
+	if c.Pre != 0 {
+		v.Class("after_a_call_that_cannot_be_converted")
+	}
 	switch c.Kind {
 	case "table":
 		return runTable(c)
@@ -266,7 +291,7 @@ func run(c Case) (v vkit.Verdict) {
 		}
 		var gx, gy float64
 		var gerr error
-		if p := vkit.Catch(func() { gx, gy, gerr = goTransform(c.Src.String(), c.Dst.String(), c.X, c.Y) }); p != "" {
+		if p := vkit.Catch(func() { gx, gy, gerr = goTransform(c.Src.String(), c.Dst.String(), c.X, c.Y, c.Pre) }); p != "" {
 			return v.Fail("panic: %s [%s -> %s]", p, c.Src, c.Dst)
 		}
 		if (gerr != nil) != (c.JS == nil) {
@@ -300,7 +325,7 @@ func run(c Case) (v vkit.Verdict) {
 		}
 		var gx, gy float64
 		var gerr error
-		if p := vkit.Catch(func() { gx, gy, gerr = goTransform(c.Src.String(), c.Dst.String(), c.X, c.Y) }); p != "" {
+		if p := vkit.Catch(func() { gx, gy, gerr = goTransform(c.Src.String(), c.Dst.String(), c.X, c.Y, c.Pre) }); p != "" {
 			return v.Fail("panic: %s [%s -> %s]", p, c.Src, c.Dst)
 		}
 		if gerr != nil {
@@ -533,7 +558,8 @@ func TestProp(t *testing.T) {
 			"exported A, B, Rf, Es, DatumParams, FromGreenwich, ToMeter equal proj4js's values (2 ulp) - exhaustive. Non-trivial = datums differ with a shift, or a series projection " +
 			"(tmerc/utm/eqdc), or a non-metre unit; all ref and table cases. Distinct by case hash." +
 			" Round 9: shift-free pairs on nearly identical ellipsoids (e^2 a few 1e-11 to 1e-10 apart)." +
-			" Round 11: one named datum in eight is written after '+nadgrids=@null'.",
+			" Round 11: one named datum in eight is written after '+nadgrids=@null'." +
+			" Round 13: a quarter of the cases call the transformer once before the judged call with a position it cannot convert (NaN, +Inf, latitude +-90); that call is not judged.",
 		Assumptions: []string{"proj4js 2.3.12 as vendored in the repository is the oracle where the property makes it one", "V8 and Go libm differ by ulps, far below 0.1 mm",
 			"if node is unavailable the differential part replays the committed golden vectors only (stated in notes.proj4js)"},
 		Gen:   gen,
